@@ -87,7 +87,7 @@ pub open spec fn inode_target(t: InodeType) -> Seq<u8> {
     }
 }
 impl RootRef<'_> {
-//@use root.RootRef.from_fd
+//@use root.RootRef.from_fd a0
 //@use root.RootRef.resolve
 //@use root.RootRef.resolve_nofollow
 //@use root.RootRef.open_subpath
